@@ -502,9 +502,12 @@ def _write_evidence(prop, tier, seed, results, new_violations, known_hit, wall, 
     for r in results:
         if "trace" in r and len(samples) < 3:
             t = r["trace"]
+            rest = {k: v for k, v in t.items() if k not in ("program", "nets", "meta", "profiles", "ops", "knobs", "engine", "prop", "seed", "tier")}
             samples.append({"engine": r["engine"], "run_index": r["index"], "run_seed": r["run_seed"],
                             "ops": t.get("ops", [])[:40], "knobs": t.get("knobs"),
-                            "net": [o["fn"] for o in t.get("program", {}).get("ops", [])] if "program" in t else None})
+                            "scenario": json.loads(json.dumps(rest, default=str))[:0] if False else rest,
+                            "net": [o["fn"] for o in t.get("program", {}).get("ops", [])] if "program" in t else
+                                   {k: ([o["fn"] for o in v["ops"]] if isinstance(v, dict) and "ops" in v else v) for k, v in t.get("nets", {}).items()}})
     eng_mods = sorted(by_engine)
     real, stub = [], []
     for en in eng_mods:
